@@ -1,21 +1,24 @@
 SPECIFICATION Spec
 CONSTANTS
   MinVols = 1
-  MaxVols = 1
+  MaxVols = 2
   TTL = 2
   Lives = {0, 2}
   Serial = {FALSE, TRUE}
   Trashing = {TRUE}
-  WKinds = {"put", "touch"}
-  TKinds = {"delete", "list_eq", "list_stale"}
-  XKinds = {"none"}
+  WKinds = {"none", "put", "touch"}
+  TKinds = {"none", "delete", "list_eq", "list_stale"}
+  XKinds = {"none", "untrash", "empty"}
   MaxActors = 2
   PreSet = {"none", "intact_old", "intact_young", "corrupt_old"}
-  PreTrash = {"none"}
-  ROSets = {{}}
+  PreTrash = {"none", "live", "expired"}
+  ROSets = {{}, {2}}
   TickSizes = {1}
   MaxTicks = 0
+  Filter = "quick"
+  NoLockSet = {FALSE, TRUE}
+  TickInList = FALSE
   POR = TRUE
-  MaxHist = 60
+  MaxHist = 80
 INVARIANTS Emit
 CHECK_DEADLOCK FALSE
